@@ -62,6 +62,7 @@ def step (a : List String) : String :=
   | ["agg.shape", st] => cmdAggShape st
   | "url.model" :: rest => cmdUrlModel rest
   | "url.set" :: rest => cmdUrlSet rest
+  | "parse.special" :: rest => cmdParseSpecial rest
   | ["canfast", h] => match Model.FastScan.fastScan (unhexs h) with
     | some true => "t" | some false => "f" | none => "n"
   | ["prepath", ty, hin, hpath] => hexs (Model.PathPrepared.parsePreparedPath (unhexs hin) (natArg ty) (unhexs hpath))
